@@ -816,7 +816,6 @@ fn main() {
         Tier::Quick => vec![
             Case { pre: 0, n: 1, from: None, skip_rows: false },
             Case { pre: 1, n: 1, from: Some(0), skip_rows: false },
-            Case { pre: 1, n: 1, from: Some(1), skip_rows: false },
             Case { pre: 1, n: 2, from: Some(1), skip_rows: false },
         ],
         Tier::Thorough => vec![
